@@ -96,7 +96,11 @@ Record c04_case := {
   k_def : defn; k_opts : opts; k_outcome : nat;
   k_values : list Z; k_strvalues : list string;
   k_probes : list (Z * (bool * string));              (* e, IsValid, String *)
-  k_parses : list (string * (res * (res * res)))      (* s, Parse<T>, ParseString, ParseGeneric *)
+  k_parses : list (string * (res * (res * res)));     (* s, Parse<T>, ParseString, ParseGeneric *)
+  (* history: after the observations above the observer WRITES into the slices it got from Values() and
+     StringValues() (k_hist) and observes again *)
+  k_hist : list hist_ev;
+  k_values2 : list Z; k_strvalues2 : list string; k_probes2 : list (Z * (bool * string))
 }.
 
 (* what the property demands of Parse on the string s *)
@@ -124,7 +128,13 @@ Definition c04_spec_ok (c : c04_case) : bool :=
              (k_probes c)
   && forallb (fun p => let '(s, (r1, (r2, r3))) := p in
                        res_eqb r1 r2 && res_eqb r1 r3 && parse_spec_ok d (k_opts c) s r1)
-             (k_parses c).
+             (k_parses c)
+  (* … and the same after any history of caller writes *)
+  && list_eqb Z.eqb (k_values2 c) vs
+  && list_eqb String.eqb (k_strvalues2 c) (map (string_spec d) vs)
+  && forallb (fun p => let '(e, (valid, str)) := p in
+                       Bool.eqb valid (existsb (Z.eqb e) vs) && String.eqb str (string_spec d e))
+             (k_probes2 c).
 
 Definition c04_model_eq (k : skels) (c : c04_case) : bool :=
   match gen (k_def c) (k_opts c) with
@@ -140,6 +150,11 @@ Definition c04_model_eq (k : skels) (c : c04_case) : bool :=
                            res_eqb r1 m && (negb (sk_parsestring k) || res_eqb r2 m)
                            && (negb (sk_parsegeneric k) || res_eqb r3 m))
                  (k_parses c)
+      && list_eqb Z.eqb (k_values2 c) (sem_values_hist k t (k_hist c))
+      && list_eqb String.eqb (k_strvalues2 c) (sem_stringvalues_sk k t)
+      && forallb (fun p => let '(e, (valid, str)) := p in
+                           Bool.eqb valid (sem_isvalid_hist k t (k_hist c) e) && String.eqb str (sem_string_sk k t e))
+                 (k_probes2 c)
   | o => Nat.eqb (k_outcome c) (outcome_code o)
   end.
 
